@@ -127,6 +127,21 @@ void checkText(const std::vector<std::string> &lines, const std::string &text, b
             }
         }
     }
+    // second sweep on the same filter object, type by type: consecutive messages of the SAME type whose category names arrive in one
+    // caller-owned buffer (same address, new contents) - what a producer with a reused buffer, or queued message copies whose freed
+    // buffers the allocator hands out again, look like to the filter
+    static char catBuf[64];
+    for (int t = 0; t < 5; t++) for (size_t c = 0; c < CATS.size(); c++) {
+        snprintf(catBuf, sizeof catBuf, "%s", CATS[c].c_str());
+        QMessageLogContext ctx("f.cpp", 1, "fn", catBuf);
+        LogMessage m(TYPES[t], ctx, QStringLiteral("x"));
+        bool got = f.filter(m), exp = refVerdict(rules, CATS[c], t);
+        sum.cases++; sum.transitions++; sum.counters["reused_buffer_cases"]++;
+        verdicts += got ? '1' : '0';
+        if (got != exp)
+            sum.violate("verdict-reused-buffer:" + std::to_string(lines.size()), "rules " + jlist(lines) + " (text " + vx::jstr(text) + "), category " + vx::jstr(CATS[c]) + " handed over in a reused buffer right after category " + vx::jstr(c ? CATS[c - 1] : CATS.back()) + ", type " + TYN[t] + ": filter " + (got ? "passes" : "drops") + " but ordered evaluation " + (exp ? "passes" : "drops"),
+                        "{\"kind\":\"c15\",\"rules\":" + vx::jstr(text) + ",\"category\":" + vx::jstr(CATS[c]) + ",\"type\":" + vx::jstr(TYN[t]) + ",\"reused_buffer\":true}");
+    }
     sum.digestAdd(text + "=>" + verdicts);
     sum.outcomes.insert(verdicts.substr(0, 40));
 }
